@@ -188,6 +188,21 @@ func c03Verifying(n *c03Node) bool {
 	return true
 }
 
+// c03AllVerifying: verification is enabled at every leaf and at every network client, also
+// behind verifying clients (then the caches inside the stack may only receive verified chunks).
+func c03AllVerifying(n *c03Node) bool {
+	ok := true
+	n.walk(func(x *c03Node) {
+		if (x.T == "leaf" || x.T == "http") && x.Skip {
+			ok = false
+		}
+		if x.T == "ssh" { // `desync pull` opens its store with SkipVerify; nothing is written behind it
+			return
+		}
+	})
+	return ok
+}
+
 // ---------- environment: file server, fault injection, zstd/digest tables ----------
 
 type c03Env struct {
@@ -205,6 +220,7 @@ type c03Env struct {
 	fakeSSH    string
 	skippedBig int
 	tmpLeft    int
+	hangs      map[string]int
 }
 
 // fault decides what happens to the next raw operation (t,k,id) and records it.
@@ -782,6 +798,7 @@ func (e *c03Env) runCase(c *c03Case, corr bool) error {
 		before[l.k] = c03Scan(filepath.Join(cd, fmt.Sprintf("b%d", l.k)), l.unc)
 	}
 	verifying := c03Verifying(c.Stack)
+	allVerifying := c03AllVerifying(c.Stack)
 	planted := "good"
 	for _, s := range c.Slots {
 		if s.Kind != "good" {
@@ -845,7 +862,7 @@ func (e *c03Env) runCase(c *c03Case, corr bool) error {
 				e.tmpLeft++ // LocalStore.StoreChunk leaves its temp file behind when the rename fails (C08's subject)
 				continue
 			}
-			if !verifying {
+			if !allVerifying {
 				continue
 			}
 			plain := obj
@@ -1029,7 +1046,7 @@ func (e *c03Env) correspond(c *c03Case, leaves []c03Leaf, after map[int]map[stri
 
 func runC03(a vh.Args, o *vh.Oracle, r *vh.Result) error {
 	r.Rule = "one case = (store stack, stored objects incl. one damaged object or fault, request sequence) run on the real stores; non-trivial = a damaged object or injected fault is present; distinct by (stack shape, damage kind, digest, faults). CLI cases = (command, store format, damage kind)."
-	e := &c03Env{a: a, o: o, r: r, dec: map[string]string{}, comp: map[string]string{}, hash: map[string]string{}}
+	e := &c03Env{a: a, o: o, r: r, dec: map[string]string{}, comp: map[string]string{}, hash: map[string]string{}, hangs: map[string]int{}}
 	// HTTPHandlerBase.get prints every failed retrieval to os.Stderr
 	if devnull, err := os.OpenFile(os.DevNull, os.O_WRONLY, 0); err == nil {
 		saved := os.Stderr
